@@ -277,3 +277,6 @@ def full_cross_product_sample(fl: int, ci: int, mi: int, ei: int, ti: int, ski: 
     """
     # the corner of the product the other conditions do not visit (unusual methods x odd headers x dead sessions)
     return verdict(untraced(_admission, fl, ci, mi, ei, ti, ski, ui, ji))
+
+
+from vf.validate.stubs import ALL as VALIDATE  # noqa: E402  (stub-vs-real conformance, run before the obligations)
